@@ -62,7 +62,55 @@ fn run_on<'a, B: DecisionNNFBuilder<'a> + TopDownBuilder<'a, BddPtr<'a>>>(which:
     Ok(())
 }
 
+/// a large formula (tens of variables, ~10^5 cache states): exhaustive evaluation is impossible, so sampled -- walk from the
+/// root towards the true leaf under random completions; every accepted assignment must satisfy the CNF, no path may decide
+/// a variable twice, and random assignments must be classified as the CNF classifies them
+fn run_large(c: &Value) -> CaseResult {
+    let nv = c["nvars"].as_u64().unwrap_or(36) as usize;
+    let ncl = c["nclauses"].as_u64().unwrap_or(60) as usize;
+    let mut s = c["seed"].as_u64().unwrap_or(1).wrapping_mul(0x9E3779B97F4A7C15) | 1;
+    let mut nx = |n: u64| { s ^= s << 13; s ^= s >> 7; s ^= s << 17; (s >> 11) % n };
+    let mut clauses: Vec<Vec<Literal>> = vec![];
+    while clauses.len() < ncl {
+        let (a, b, d) = (nx(nv as u64), nx(nv as u64), nx(nv as u64));
+        if a == b || b == d || a == d { continue; }
+        clauses.push([a, b, d].iter().map(|v| Literal::new(VarLabel::new(*v), nx(2) == 1)).collect());
+    }
+    let cnf = Cnf::new(&clauses);
+    if cnf.num_vars() != nv { return Ok(()); }
+    let b = StandardDecisionNNFBuilder::new(VarOrder::linear_order(nv));
+    let d = b.compile_cnf_topdown(&cnf);
+    let holds = |a: &Vec<bool>| clauses.iter().all(|cl| cl.iter().any(|l| a[l.label().value() as usize] == l.polarity()));
+    for _ in 0..20000 {
+        let mut a: Vec<bool> = (0..nv).map(|_| nx(2) == 1).collect();
+        // plain evaluation must agree with the CNF
+        if eval(d, &a) != holds(&a) { return Err(format!("large formula (seed {}): diagram is {} on a random assignment, the CNF is {}", c["seed"], eval(d, &a), holds(&a))); }
+        // guided walk to a true leaf
+        let mut seen = vec![false; nv];
+        let mut p = d;
+        let mut neg = false;
+        loop {
+            match p {
+                BddPtr::PtrTrue | BddPtr::PtrFalse => break,
+                BddPtr::Reg(n) | BddPtr::Compl(n) => {
+                    if let BddPtr::Compl(_) = p { neg = !neg; }
+                    let v = n.var.value() as usize;
+                    if seen[v] { return Err(format!("large formula (seed {}): a path decides variable {v} twice", c["seed"])); }
+                    seen[v] = true;
+                    let is_f = |q: BddPtr| matches!(q, BddPtr::PtrFalse) != neg && matches!(q, BddPtr::PtrFalse | BddPtr::PtrTrue);
+                    let go_high = if is_f(n.low) { true } else if is_f(n.high) { false } else { a[v] };
+                    a[v] = go_high;
+                    p = if go_high { n.high } else { n.low };
+                }
+            }
+        }
+        if eval(d, &a) && !holds(&a) { return Err(format!("large formula (seed {}): the diagram accepts an assignment that falsifies the CNF", c["seed"])); }
+    }
+    Ok(())
+}
+
 pub fn run(c: &Value) -> CaseResult {
+    if c["case"].as_str() == Some("dnnf_large") { return run_large(c); }
     let nv = c["nvars"].as_u64().unwrap_or(3) as usize;
     let clauses: Vec<Vec<Literal>> = c["cnf"].as_array().map(|cs| cs.iter().map(|cl| cl.as_array().map(|ls| ls.iter().map(|l| {
         let x = l.as_i64().unwrap_or(1);
@@ -133,6 +181,9 @@ pub fn candidates(seed: u64) -> Vec<Value> {
         for i in (1..nv as usize).rev() { let j = nx(i as u64 + 1) as usize; order.swap(i, j); }
         out.push(json!({"case": "dnnf_cond", "nvars": nv, "cnf": cnf, "order": order, "neg": nx(2) == 0, "lbl": nx(nv), "val": nx(2) == 0}));
     }
+    // two large random 3-CNFs (40 variables, 70 clauses: ~10^5 component-cache states), checked by sampling
+    out.push(json!({"case": "dnnf_large", "nvars": 40, "nclauses": 70, "seed": 1}));
+    out.push(json!({"case": "dnnf_large", "nvars": 40, "nclauses": 70, "seed": seed.wrapping_add(2)}));
     // clauses of four literals on distinct variables, 6 variables, random orders: one decision can falsify two literals
     // of a clause that stays open, which is where the residual hash and the watch lists are exercised hardest
     for _ in 0..400 {
